@@ -403,7 +403,10 @@ pub fn check_c02(sc: &H1Scenario, out: &H1Out) -> Vec<Violation> {
     let finals: Vec<&resp::ParsedResp> = p.resps.iter().filter(|r| !r.is_interim()).collect();
     // the peer reset the connection, or closed its sending side while the server is configured
     // to abort on that
-    let socket_faulted = co.reset_sent_at.is_some() || (!sc.cfg.half_closed && co.saw_eof_at.is_some());
+    let socket_faulted = co.reset_sent_at.is_some()
+        || (!sc.cfg.half_closed && co.saw_eof_at.is_some())
+        // the peer did not take the output within client_disconnect_timeout after shutdown began
+        || co.result.as_ref().map(|r| matches!(&r.0, Err(e) if e.contains("DisconnectTimeout"))).unwrap_or(false);
 
     // --- self-delimiting
     if let Tail::Malformed(at, why) = &p.tail {
